@@ -54,6 +54,10 @@ CHECKS['C04'] = ('3/C04', 'Linear probing by the solver: unit fields through the
                  'path); weights >= 0 (self weights by solver-checked proof scripts with term abstraction) and weights summing to one are SMT '
                  'queries; interior, bypass (flowing and stagnant) and both low-fidelity models.')
 
+CHECKS['C10'] = ('3/C10', 'Boundary arrays from the real calculate_xbnds/_calculate_gap_xbnds with symbolic pitches and corner lengths; the '
+                 'real _map_asm2gap runs on them with every mesh interleaving as a path; non-negativity, rows summing to one, adjointness '
+                 'and preservation of the perimeter-weighted integral are SMT queries per entry.')
+
 NOT_APPLICABLE = {
     'C16': ('No symbolic dimension for a solver: process schedules/multiprocessing/file output, bitwise IEEE determinism, and '
             'object-identity/type mutation of the input dictionary on `is None`/key-presence branches (DESIGN section 4).'),
